@@ -102,6 +102,13 @@ def execute(job):
         r.queue_request(sid, {"kind": "hello"})
         for rq in program.get(sid, []):
             k = rq[0]
+            wire = None
+            if len(rq) > 1 and isinstance(rq[1], str) and not rq[1].startswith(".copia"):
+                # another accepted spelling of the same file ("./f", "d//k", "d/./k"): the model knows it by its normal form
+                import posixpath
+                norm = posixpath.normpath(rq[1])
+                if norm != rq[1]:
+                    wire, rq = rq[1], (rq[0], norm) + tuple(rq[2:])
             if k in ("put", "badput", "shortput", "longput"):
                 op = {"kind": "put", "path": rq[1], "exp": rq[2], "c": rq[3], "pieces": 2, "hashok": k != "badput"}
                 if k == "badput":
@@ -119,6 +126,8 @@ def execute(job):
                 op = {"kind": "get", "path": rq[1]}
             else:
                 op = {"kind": "list"}
+            if wire:
+                op["wire"] = wire
             oid = r.queue_request(sid, op)
             ops[oid] = op
     order = job.get("order")
